@@ -22,7 +22,7 @@ def epilogue(cfg, end_sock):
     negotiation from the start and succeeds"). Uses PLAIN so that no server proof is involved."""
     if cfg.get("reg", "none") != "none":
         return []       # a registration-on-connect client never opens a session: nothing to re-establish
-    steps = []
+    steps = [{"k": "EpilogueStart"}]
     if end_sock == "On":
         steps.append({"k": "Cut"})
     steps.append({"k": "Connect"})
